@@ -1016,6 +1016,10 @@ def run(an: Analysis, rep):
     rep.run(r119, an, rep)
     rep.run(width_rule, an, rep)
     rep.run(r11q, an, rep)
+    from . import c01 as _c01r
+    shr2 = _SR(rep, "R11.S", "every header field of the re-encoded object is built from what the decoder took from that same field (shared with C01's R01.2): 'reproduces co_flags and every other header field exactly'")
+    for V in VERSIONS:
+        rep.run(_c01r.r012, an, shr2, V)
     rep.run(r11o, an, rep)
     from . import c10, c13
     from .common import SharedRules as _SR
